@@ -104,6 +104,12 @@ class Supp:
             return frozenset()
         if o == "const":
             return frozenset()
+        if o == "rest":
+            return frozenset(["others"]) if "others" in self.ans else TOP
+        if o == "star":
+            return self.of(t.x)
+        if o in ("tuple", "list") and "others" in self.ans:
+            return self.union([self.of(e) for e in t.elts])
         if o == "bin":
             return self.union([self.of(t.l), self.of(t.r)])
         if o == "un":
@@ -133,6 +139,16 @@ class Supp:
                 pr = project(self.ev, t.obj, t.idx.value)
                 if pr is not None:
                     return self.of(pr)
+            if "others" in self.ans:
+                # operands of a variadic contraction: args[argnum] is the differentiated one, slices are the others
+                base = t.obj
+                while base.op == "sub":
+                    base = base.obj
+                if base.op == "rest":
+                    if t.idx.op == "sym" and t.idx.get("role") == "argnum":
+                        return frozenset(["argnum"])
+                    if t.idx.op == "slice":
+                        return frozenset(["others"])
             return TOP
         if o == "loop":
             a = self.of(t.init)
@@ -163,6 +179,9 @@ class Supp:
             if bn in ("expand_dims", "swapaxes", "squeeze", "transpose", "moveaxis", "rollaxis", "flip", "roll", "negative", "copy") and args:
                 # re-indexing keeps the set of shape sources (not the layout; that is not tracked here)
                 return self.of(args[0])
+            if bn == "einsum" and "others" in self.ans:
+                ops = [self.of(a) for a in args[1:]]
+                return self.union([o for o in ops])
             if bn in ("cross", "matmul") and len(args) >= 2:
                 # leading (batch) dimensions of both operands broadcast into the result
                 return self.union([self.of(args[0]), self.of(args[1])])
@@ -236,6 +255,8 @@ def vjp(ctx, world):
 
         verdicts = []
         for conds, leaf in deep_leaves(world.ev, ir.result):
+            if any(c.op == "cmp" and c.opname == "NotIn" and pol and c.l.op == "ref" and c.l.ref.qual == "builtins.Ellipsis" for c, pol in conds):
+                continue  # sublist convention without an ellipsis: einsum cannot broadcast, nothing to reduce
             verdicts.append((S.of(leaf), leaf))
         bad = [(s, l) for s, l in verdicts if s is not TOP and s != frozenset([k])]
         und = [(s, l) for s, l in verdicts if s is TOP]
